@@ -26,7 +26,7 @@ def publish_raw_start(w, sm_arn, data, message_id=None, definition=None):
 
 
 def run_monitored(case, schedule=(), want=("lifecycle", "ack", "history", "surface"), seed=0, store="file", tick=1e-6,
-                  starts=None, n_engines=1, max_steps=4000, tz="UTC", split=False, orphan_retention_ms=3000, probe=None, logging=None, rerun_same_name=False, dup_replies=0):
+                  starts=None, n_engines=1, max_steps=4000, tz="UTC", split=False, orphan_retention_ms=3000, probe=None, logging=None, rerun_same_name=False, dup_replies=0, midrun_reads=0):
     """
     case: dict(definition, input, oracle, type).  starts: list of dict(mode="api"|"raw"|"raw-id", input=..., name=...).
     -> dict(fails={monitor: [(bucket, detail)]}, info={...}, world closed)
@@ -62,6 +62,24 @@ def run_monitored(case, schedule=(), want=("lifecycle", "ack", "history", "surfa
         w.after_step.extend(m.after_step for m in mons.values())
         if "surface" in mons:
             w.on_notify.append(mons["surface"].at_publish)
+        if midrun_reads:
+            # a client polls GetExecutionHistory (reverse order first, as a 'latest events' view does) while the executions are running: reading changes nothing
+            def poll(w_, label=None):
+                if w_.steps % midrun_reads:
+                    return
+                for arn in list(started):
+                    if not is_std(arn):
+                        continue
+                    st_r, rev = w_.history(arn, reverse=True)
+                    st_f, fwd = w_.history(arn)
+                    eh = M.engine_history(w_, arn)
+                    if eh is None or st_r != 200 or st_f != 200:
+                        continue
+                    stored = json.loads(json.dumps(eh))
+                    if fwd.get("events") != stored or rev.get("events") != list(reversed(stored)):
+                        out["fails"].setdefault("history", []).append(("midrun-history-read-differs-from-store", "%s at step %d: forward ids %r, reverse ids %r, stored ids %r" % (
+                            arn, w_.steps, [e.get("id") for e in fwd.get("events", [])][:12], [e.get("id") for e in rev.get("events", [])][:12], [e.get("id") for e in stored][:12])))
+            w.after_step.append(poll)
         w.split_delivery = split
         raw_count = 0
         for k, s in enumerate(starts):
@@ -149,6 +167,14 @@ def cases_with_schedules(cfg=None, max_sched=40, multi=True):
             c5 = {"kind": k, "n": draw(st.integers(2, 3)), "mc": draw(st.sampled_from([1, 1, 2, 0])), "inner_mc": draw(st.sampled_from([None, 1])), "two": draw(st.booleans())}
             d_, i_, o_ = c05.build(c5)
             case = {"definition": d_, "input": i_, "oracle": o_, "type": case["type"], "features": ["Map", "structured-nested-fanout"]}
+        elif draw(st.integers(0, 11)) == 0:
+            # a retried fan-out (the Map/Parallel state itself has the Retrier, its first attempts fail): rare in the free-form generator
+            from .checks import c07
+            n_fail = draw(st.integers(1, 2))
+            c7 = {"kind": draw(st.sampled_from(["Map", "Map", "Parallel"])), "retry": [{"ErrorEquals": ["States.ALL"], "IntervalSeconds": 1, "MaxAttempts": draw(st.integers(1, 2)), "BackoffRate": 1.0}],
+                  "catch": draw(st.sampled_from([[], [{"ErrorEquals": ["States.ALL"], "ResultPath": "$.err"}]])), "outcomes": ["ErrA"] * n_fail + ["ok"], "mc": draw(st.sampled_from([0, 1]))}
+            d_, i_, o_ = c07.build(c7)
+            case = {"definition": d_, "input": i_, "oracle": o_, "type": case["type"], "features": [c7["kind"], "Retry", "retried-fanout"]}
         sched = draw(st.lists(st.integers(0, 6), max_size=max_sched))
         # most steps canonical, so that deviations are isolated and shrink well
         if draw(st.booleans()):
